@@ -1,4 +1,4 @@
-use kanata_keyberon::layout::{Event, QueuedIter, WaitingAction};
+use kanata_keyberon::layout::{QueuedIter, WaitingAction};
 
 use crate::keys::OsCode;
 
@@ -14,18 +14,20 @@ pub(crate) fn custom_tap_hold_release(
     let keys = a.sref_vec(Vec::from_iter(keys.iter().copied()));
     a.sref(
         move |mut queued: QueuedIter| -> (Option<WaitingAction>, bool) {
-            while let Some(q) = queued.next() {
+            // The events are looked at in the order they happened: whichever comes first, the press
+            // of a listed key (tap) or the release of another key that was pressed while waiting
+            // (hold, the PermissiveHold algorithm), decides.
+            let mut pressed_while_waiting: Vec<(u8, u16)> = Vec::new();
+            for q in queued.by_ref() {
+                let coord = q.event().coord();
                 if q.event().is_press() {
-                    let (i, j) = q.event().coord();
                     // If any key matches the input, do a tap right away.
-                    if keys.iter().copied().map(u16::from).any(|j2| j2 == j) {
+                    if keys.iter().copied().map(u16::from).any(|j2| j2 == coord.1) {
                         return (Some(WaitingAction::Tap), false);
                     }
-                    // Otherwise do the PermissiveHold algorithm.
-                    let target = Event::Release(i, j);
-                    if queued.clone().copied().any(|q| q.event() == target) {
-                        return (Some(WaitingAction::Hold), false);
-                    }
+                    pressed_while_waiting.push(coord);
+                } else if pressed_while_waiting.contains(&coord) {
+                    return (Some(WaitingAction::Hold), false);
                 }
             }
             (None, false)
